@@ -43,9 +43,10 @@ CHECKS.update({
         category="exploration",
         text="The load protocol (per-reader validity facts -> runner/error, never panic) is a TLA+ specification model-checked for all outcome vectors of <=3 readers; every row with "
              "concrete content is turned into bytes and loaded; generated, mutated and random inputs split over readers are loaded with the real NewDialogueRunner and each load "
-             "event is judged by the trace specification, with an independent ANTLR error listener deciding syntactic validity.",
+             "event is judged by the trace specification; syntactic validity is decided by the generated ANTLR parser with an error listener, fed by the generated lexer under "
+             "the specification's own indentation rule (a transcription of IndentLexer.tla that LexTrace validates in every run), not by the library's indentation layer.",
         design_ref="DESIGN.md section 6 (C05)",
-        note="The input space is sampled (sizes in the evidence); the grammar itself is ANTLR's (trusted as the definition of validity); where the per-reader and whole-input "
+        note="The input space is sampled (sizes in the evidence); the .g4 grammar as compiled by ANTLR is trusted as the definition of validity (token and parser level); where the per-reader and whole-input "
              "readings of validity disagree only 'never panics' is judged.",
         technique="TLA+ protocol spec (TLC) + decision-table replay + trace validation of sampled loads",
     ),
@@ -88,7 +89,9 @@ CHECKS.update({
              "depth <= 2 over the 16 operators with logging probe leaves, and prints each with the text its precedence model prescribes (minimal / full parentheses, word spellings) "
              "and the prescribed value, error and call log; every row is evaluated by the real parser + evaluator (parsed tree, value, error-ness, probe log compared); deeper "
              "random trees inside programs are replayed and trace-validated.",
-        design_ref="DESIGN.md section 6 (C02)", note=CORE_NOTE + " Numeric accuracy on non-dyadic doubles is not decided (TLC has no reals).",
+        design_ref="DESIGN.md section 6 (C02)", note=CORE_NOTE + " Outside the exact window TLC cannot compute: there doubles cross as bit-pattern tokens and the trace "
+             "specification (WideArithTrace.tla) only demands equality with the token the harness computed with the host language's IEEE-754 arithmetic (trusted) for + - * / % "
+             "unary minus and the comparisons; display of such numbers is C04's/C19's.",
         technique="TLA+ exhaustive tree enumeration with invariants (TLC) + row replay + trace validation",
     ),
     "C06": dict(
